@@ -108,6 +108,58 @@ theorem firstErr_foldl_isSome {ε : Type} (err : Nat → Option ε) (l : List Na
     | some e => simp [firstErr]
     | none => simp [firstErr]
 
+/-- a worker may always run a whole prefix of its list in one go -/
+theorem interleave_prefix {α : Type} (l : List α) : ∀ (cs : List (List α)) (k : Nat) (rest : List α) (tr : List (Nat × α)),
+    cs[k]? = some (l ++ rest) → Interleave (cs.set k rest) tr → Interleave cs (l.map (fun x => (k, x)) ++ tr) := by
+  induction l with
+  | nil =>
+    intro cs k rest tr h hI
+    obtain ⟨hlt, heq⟩ := List.getElem?_eq_some_iff.mp h
+    simp only [List.nil_append] at heq
+    rw [← heq, List.set_getElem_self] at hI
+    simpa using hI
+  | cons x l ih =>
+    intro cs k rest tr h hI
+    obtain ⟨hlt, _⟩ := List.getElem?_eq_some_iff.mp h
+    simp only [List.map_cons, List.cons_append]
+    refine .step (rest := l ++ rest) h (ih (cs.set k (l ++ rest)) k rest tr ?_ ?_)
+    · rw [List.getElem?_set_self hlt]
+    · rw [List.set_set]; exact hI
+
+theorem foldl_inc (k : Nat) (n : Nat) : ∀ (c0 m : Nat),
+    ((List.replicate n CStep.inc).map (fun c => (k, c))).foldl (fun s e => counterStep s e.2) (c0, m)
+      = (c0 + n, if n = 0 then m else max m (c0 + n)) := by
+  induction n with
+  | zero => intro c0 m; simp
+  | succ n ih =>
+    intro c0 m
+    simp only [List.replicate_succ, List.map_cons, List.foldl_cons]
+    have h1 : counterStep (c0, m) CStep.inc = (c0 + 1, max m (c0 + 1)) := rfl
+    rw [h1, ih]
+    by_cases hn : n = 0
+    · subst hn; simp
+    · simp only [hn, if_false, Nat.succ_ne_zero]
+      refine Prod.ext (by simp; omega) ?_
+      simp only [Nat.max_def]
+      repeat' split
+      all_goals omega
+
+/-- a counter per evaluation sees its own worker's steps only -/
+theorem own_counter_foldl (tr : List (Nat × CStep)) : ∀ (st : Nat → Nat × Nat) (k : Nat),
+    (tr.foldl (fun st e => fun k => if k = e.1 then counterStep (st k) e.2 else st k) st) k
+      = (ownEvents tr k).foldl counterStep (st k) := by
+  induction tr with
+  | nil => intro st k; rfl
+  | cons e tr ih =>
+    intro st k
+    simp only [List.foldl_cons]
+    rw [ih]
+    by_cases h : k = e.1
+    · subst h
+      simp [ownEvents, List.filter_cons]
+    · have : (e.1 == k) = false := by simp; exact fun h' => h h'.symm
+      simp [ownEvents, List.filter_cons, this, h]
+
 theorem map_range_getD {α γ : Type} (g : List α → γ) (cs : List (List α)) :
     (List.range cs.length).map (fun k => g ((cs[k]?).getD [])) = cs.map g := by
   apply List.ext_getElem
